@@ -210,6 +210,97 @@ fn parse_wire(b: &[u8]) -> Option<(u32, u8, u8, Option<u32>, Option<u8>)> {
     Some((ctr, xf, opc, ack, b.get(p).copied()))
 }
 
+
+/// A socket that records, in execution order, what a node's stack hands to the network and takes
+/// from it (the observable system-level events the two-node model is checked against).
+struct Tap<'a> {
+    inner: &'a crate::simnet::SimSocket,
+    net: &'a crate::simnet::SimNet,
+    node: usize,
+    ev: &'a std::cell::RefCell<Vec<String>>,
+    /// secure flows: the sender's (encryption, decryption) keys, to read the protected header
+    keys: &'a std::cell::RefCell<Option<([u8; 16], [u8; 16])>>,
+    /// events are recorded (off while the PASE handshake of a secure flow runs)
+    on: &'a std::cell::Cell<bool>,
+}
+
+/// the cleartext view of a datagram of a secure session (real header parsers, real AEAD)
+fn open_secure(b: &[u8], key: &[u8; 16]) -> Option<(u32, u8, u8, Option<u32>, Option<u8>)> {
+    use rs_matter::crypto::{test_only_crypto, CanonAeadKeyRef};
+    use rs_matter::transport::packet::PacketHdr;
+    use rs_matter::utils::storage::ParseBuf;
+    let mut copy = b.to_vec();
+    let mut pb = ParseBuf::new(copy.as_mut_slice());
+    let mut hdr = PacketHdr::new();
+    hdr.decode_plain_hdr(&mut pb).ok()?;
+    hdr.decode_remaining(test_only_crypto(), Some(CanonAeadKeyRef::new(key)), 0, &mut pb).ok()?;
+    let xf = (hdr.proto.is_reliable() as u8) << 2 | (hdr.proto.get_ack().is_some() as u8) << 1;
+    Some((hdr.plain.ctr, xf, hdr.proto.proto_opcode, hdr.proto.get_ack(), pb.as_slice().first().copied()))
+}
+
+fn describe_dg(b: &[u8], keys: &Option<([u8; 16], [u8; 16])>, from: usize) -> Option<(bool, u32, u32)> {
+    // (is data, counter, message number | acknowledged counter)
+    let secure = b.len() > 3 && (b[1] != 0 || b[2] != 0);
+    let (ctr, xf, opc, ack, id) = if secure {
+        let k = keys.as_ref()?;
+        open_secure(b, if from == 1 { &k.0 } else { &k.1 })?
+    } else {
+        parse_wire(b)?
+    };
+    if opc == 0x10 {
+        Some((false, ctr, ack?))
+    } else if xf & 0x04 != 0 && opc == 0x20 {
+        Some((true, ctr, id? as u32))
+    } else {
+        None
+    }
+}
+
+impl rs_matter::transport::network::NetworkSend for &Tap<'_> {
+    async fn send_to(&mut self, data: &[u8], addr: rs_matter::transport::network::Address) -> Result<(), rs_matter::error::Error> {
+        let mut s = self.inner;
+        let t = crate::simnet::now_ms();
+        let r = rs_matter::transport::network::NetworkSend::send_to(&mut s, data, addr).await;
+        let fate = match self.net.log().last().map(|l| l.verdict) {
+            Some(crate::simnet::Verdict::Drop) => "x",
+            Some(crate::simnet::Verdict::Dup) => "2",
+            _ => "p",
+        };
+        if !self.on.get() {
+            return r;
+        }
+        let e = match describe_dg(data, &self.keys.borrow(), self.node) {
+            Some((true, ctr, idx)) if self.node == 1 => format!("TA:{}:{}:{}:{}", t, ctr, idx, fate),
+            Some((false, ctr, ack)) if self.node == 0 => format!("TB:{}:{}:{}", ctr, ack, fate),
+            _ => format!("X:{}", self.node),
+        };
+        self.ev.borrow_mut().push(e);
+        r
+    }
+}
+
+impl rs_matter::transport::network::NetworkReceive for &Tap<'_> {
+    async fn wait_available(&mut self) -> Result<(), rs_matter::error::Error> {
+        let mut s = self.inner;
+        rs_matter::transport::network::NetworkReceive::wait_available(&mut s).await
+    }
+
+    async fn recv_from(&mut self, buffer: &mut [u8]) -> Result<(usize, rs_matter::transport::network::Address), rs_matter::error::Error> {
+        let mut s = self.inner;
+        let (n, a) = rs_matter::transport::network::NetworkReceive::recv_from(&mut s, buffer).await?;
+        if !self.on.get() {
+            return Ok((n, a));
+        }
+        let e = match describe_dg(&buffer[..n], &self.keys.borrow(), 1 - self.node) {
+            Some((true, ctr, idx)) if self.node == 0 => format!("RB:{}:{}", ctr, idx),
+            Some((false, ctr, ack)) if self.node == 1 => format!("RA:{}:{}", ctr, ack),
+            _ => format!("X:{}", self.node),
+        };
+        self.ev.borrow_mut().push(e);
+        Ok((n, a))
+    }
+}
+
 /// `sys` cases: two real nodes on the simulated adversarial network. One op:
 ///  `flow <seed> <drop pm> <dup pm> <delay pm> <max delay ms> <messages>`
 /// Node 1 opens an unsecured exchange to node 0 and sends `<messages>` reliable messages one after the
@@ -218,7 +309,7 @@ fn parse_wire(b: &[u8]) -> Option<(u32, u8, u8, Option<u32>, Option<u8>)> {
 /// wire=<t>:<from>:<verdict>:<ctr>:<flags>:<ack|->:<number|->,...`
 fn run_sys(out: &mut Out, ops: &[String]) {
     use crate::simnet::{addr_of, now_ms, run_sim, RandomPolicy, SimEnd, SimNet, Verdict};
-    use embassy_futures::select::{select, select3, Either3};
+    use embassy_futures::select::select;
     use rs_matter::crypto::test_only_crypto;
     use rs_matter::dm::devices::test::{TEST_DEV_ATT, TEST_DEV_COMM, TEST_DEV_DET};
     use rs_matter::error::Error;
@@ -235,17 +326,30 @@ fn run_sys(out: &mut Out, ops: &[String]) {
             continue;
         }
         embassy_time::MockDriver::get().reset();
-        let net = SimNet::new(2, Box::new(RandomPolicy { rng: Rng::new(w[0]), drop_pm: w[1].min(1000), dup_pm: w[2].min(1000), delay_pm: w[3].min(1000), max_delay_ms: w[4].min(3000) }));
+        // `flow … <messages> 1`: on a PASE session established first over a perfect network
+        let secure = w.get(6).copied().unwrap_or(0) != 0;
+        let adversary = || Box::new(RandomPolicy { rng: Rng::new(w[0]), drop_pm: w[1].min(1000), dup_pm: w[2].min(1000), delay_pm: w[3].min(1000), max_delay_ms: w[4].min(3000) });
+        let net = if secure { SimNet::new(2, Box::new(crate::simnet::Perfect)) } else { SimNet::new(2, adversary()) };
+        let keys: RefCell<Option<([u8; 16], [u8; 16])>> = RefCell::new(None);
+        let on = std::cell::Cell::new(!secure);
         let device = Box::new(Matter::new(&TEST_DEV_DET, TEST_DEV_COMM, &TEST_DEV_ATT, 0));
         let controller = Box::new(Matter::new(&TEST_DEV_DET, TEST_DEV_COMM, &TEST_DEV_ATT, 0));
         let crypto = test_only_crypto();
-        let ds = net.socket(0);
-        let cs = net.socket(1);
+        let ds0 = net.socket(0);
+        let cs0 = net.socket(1);
+        let events: RefCell<Vec<String>> = RefCell::new(Vec::new());
+        let ds = Tap { inner: &ds0, net: &net, node: 0, ev: &events, keys: &keys, on: &on };
+        let cs = Tap { inner: &cs0, net: &net, node: 1, ev: &events, keys: &keys, on: &on };
+        let pre: RefCell<Option<Exchange>> = RefCell::new(None);
         let n_msgs = w[5].clamp(1, 6) as u8;
         let results: RefCell<Vec<String>> = RefCell::new(Vec::new());
         let app: RefCell<Vec<u8>> = RefCell::new(Vec::new());
         let sender = async {
-            let mut ex = Exchange::initiate_plaintext(&controller, &crypto, addr_of(0)).await?;
+            let taken = pre.borrow_mut().take();
+            let mut ex = match taken {
+                Some(ex) => ex,
+                None => Exchange::initiate_plaintext(&controller, &crypto, addr_of(0)).await?,
+            };
             for i in 0..n_msgs {
                 let r = ex
                     .send_with(|_, wb| {
@@ -254,8 +358,12 @@ fn run_sys(out: &mut Out, ops: &[String]) {
                     })
                     .await;
                 match r {
-                    Ok(()) => results.borrow_mut().push("ok".into()),
+                    Ok(()) => {
+                        events.borrow_mut().push(format!("E:{}:ok", i));
+                        results.borrow_mut().push("ok".into())
+                    }
                     Err(e) => {
+                        events.borrow_mut().push(format!("E:{}:{:?}", i, e.code()));
                         results.borrow_mut().push(format!("{:?}", e.code()));
                         break;
                     }
@@ -272,6 +380,7 @@ fn run_sys(out: &mut Out, ops: &[String]) {
                         Err(_) => break,
                     };
                     app.borrow_mut().push(id);
+                    events.borrow_mut().push(format!("AP:{}", id));
                     if ex.acknowledge().await.is_err() {
                         break;
                     }
@@ -282,19 +391,58 @@ fn run_sys(out: &mut Out, ops: &[String]) {
         };
         let dev_run = device.run(&crypto, &ds, &ds, NoNetwork);
         let ctl_run = controller.run(&crypto, &cs, &cs, NoNetwork);
-        let mut nodes = core::pin::pin!(select3(dev_run, ctl_run, receiver));
+        let mut transports = core::pin::pin!(select(dev_run, ctl_run));
+        let mut hs_failed = false;
+        if secure {
+            use rs_matter::respond::Responder;
+            use rs_matter::sc::SecureChannel;
+            use rs_matter::transport::session::SessionMode;
+            let _ = device.open_basic_comm_window(300, &crypto, &());
+            let sc = SecureChannel::new(&crypto, &());
+            let responder = Responder::new("device", sc, &device, 0);
+            let hs = async {
+                let ex = Exchange::initiate_pase(&controller, &crypto, addr_of(0), 20202021).await?;
+                // the responder still waits for the acknowledgement of its status report
+                embassy_time::Timer::after(embassy_time::Duration::from_millis(1000)).await;
+                Ok::<_, Error>(ex)
+            };
+            let all = select(transports.as_mut(), select(responder.run::<2>(), hs));
+            match run_sim(&net, all, 60_000) {
+                SimEnd::Done(embassy_futures::select::Either::Second(embassy_futures::select::Either::Second(Ok(ex)))) => {
+                    *pre.borrow_mut() = Some(ex);
+                }
+                _ => hs_failed = true,
+            }
+            let k = controller.with_state(|st| {
+                st.verif_sessions().iter().find(|s| matches!(s.get_session_mode(), SessionMode::Pase { .. })).map(|s| {
+                    let (_, _, dec, enc) = s.verif_view();
+                    (enc, dec)
+                })
+            });
+            if k.is_none() {
+                hs_failed = true;
+            }
+            *keys.borrow_mut() = k;
+            net.set_policy(adversary());
+            on.set(true);
+        }
+        if hs_failed {
+            out.op(op, "handshake-failed");
+            continue;
+        }
+        let mut nodes = core::pin::pin!(select(transports.as_mut(), receiver));
         let mut sender = core::pin::pin!(sender);
         let finished = {
             let both = select(nodes.as_mut(), sender.as_mut());
             matches!(run_sim(&net, both, 120_000), SimEnd::Done(embassy_futures::select::Either::Second(_)))
         };
         if !finished {
+            events.borrow_mut().push(format!("E:{}:hang", results.borrow().len()));
             results.borrow_mut().push("hang".into());
         }
         // let delayed copies arrive and be acknowledged
         let _ = run_sim(&net, nodes.as_mut(), 4_000);
         let _ = now_ms();
-        let _: Option<Either3<(), (), ()>> = None;
         let mut wire = Vec::new();
         for l in net.log() {
             let v = match l.verdict {
@@ -318,10 +466,12 @@ fn run_sys(out: &mut Out, ops: &[String]) {
             }
         }
         let res = format!(
-            "base={} res={} app={} wire={}",
+            "base={} enc={} res={} app={} trace={} wire={}",
             TEST_DEV_DET.sai.unwrap_or(300),
+            secure as u8,
             results.borrow().join(","),
             app.borrow().iter().map(|i| i.to_string()).collect::<Vec<_>>().join(","),
+            events.borrow().join(","),
             wire.join(",")
         );
         for r in results.borrow().iter() {
@@ -359,7 +509,7 @@ pub fn gen(a: &Args) -> String {
             3 => (0, cr.range(100, 500), cr.range(0, 300)),
             _ => (cr.range(0, 500), cr.range(0, 300), cr.range(0, 300)),
         };
-        let ops = vec![format!("flow {} {} {} {} {} {}", cr.below(1 << 32), drop, dup, delay, *cr.pick(&[50u64, 400, 800, 2500]), cr.range(1, 4))];
+        let ops = vec![format!("flow {} {} {} {} {} {} {}", cr.below(1 << 32), drop, dup, delay, *cr.pick(&[50u64, 400, 800, 2500]), cr.range(1, 4), (id % 2 == 1) as u8)];
         out.case(n_cases + id, "sys");
         run_sys(&mut out, &ops);
     }
